@@ -72,7 +72,57 @@ static void do_rot()
     printf("\nend\n");
 }
 
+
+// coeffsweep <id> <it> <nthreads> : every binary32 value f in [0,1) through the real calcCoefficiants.
+// prints: n <count> ; maxsum <max |sum w - 1|> at <f> ; maxmom <max_k |sum_j w_j (j-c)^k - f^k|, k<it> at <f> ; zero <1 if f==0 gives the unit vector>
+#include <thread>
+#include <mutex>
+static void do_coeffsweep()
+{
+    std::string id = next();
+    unsigned it = nextl();
+    unsigned nth = nextl();
+    const uint32_t one = 0x3f800000u;      // bit pattern of 1.0f: all patterns below are the floats in [0,1)
+    struct R { double ms = 0, mm = 0; float fs = 0, fm = 0; uint64_t cnt = 0; };
+    std::vector<R> rs(nth);
+    std::vector<std::thread> th;
+    int c = (it - 1) / 2;
+    for (unsigned t = 0; t < nth; t++) {
+        th.emplace_back([&, t]() {
+            R& r = rs[t];
+            uint64_t lo = (uint64_t)one * t / nth, hi = (uint64_t)one * (t + 1) / nth;
+            for (uint64_t b = lo; b < hi; b++) {
+                uint32_t bits = (uint32_t)b;
+                float f; memcpy(&f, &bits, 4);
+                interpol_t w[4] = {0, 0, 0, 0};
+                SourceMap::calcCoefficiants(w, f, it);
+                double s = 0;
+                for (unsigned j = 0; j < it; j++) s += (double)w[j];
+                double d = fabs(s - 1.0);
+                if (d > r.ms) { r.ms = d; r.fs = f; }
+                double fk = 1.0;
+                for (unsigned k = 0; k < it; k++) {
+                    double m = 0;
+                    for (unsigned j = 0; j < it; j++) m += (double)w[j] * pow((double)((int)j - c), (double)k);
+                    double e = fabs(m - fk);
+                    if (e > r.mm) { r.mm = e; r.fm = f; }
+                    fk *= (double)f;
+                }
+                r.cnt++;
+            }
+        });
+    }
+    for (auto& x : th) x.join();
+    R a;
+    for (auto& r : rs) { a.cnt += r.cnt; if (r.ms > a.ms) { a.ms = r.ms; a.fs = r.fs; } if (r.mm > a.mm) { a.mm = r.mm; a.fm = r.fm; } }
+    interpol_t w0[4] = {0, 0, 0, 0};
+    SourceMap::calcCoefficiants(w0, 0.0f, it);
+    bool unit = true;
+    for (unsigned j = 0; j < it; j++) unit = unit && (w0[j] == ((int)j == c ? 1.0f : 0.0f));
+    printf("case %s\nn %llu\nmaxsum %a %a\nmaxmom %a %a\nzero %d\nend\n", id.c_str(), (unsigned long long)a.cnt, a.ms, (double)a.fs, a.mm, (double)a.fm, unit ? 1 : 0);
+}
+
 int main(int argc, char** argv)
 {
-    return run_main(argc, argv, {{"kick", do_kick}, {"coeffs", do_coeffs}, {"rot", do_rot}});
+    return run_main(argc, argv, {{"kick", do_kick}, {"coeffs", do_coeffs}, {"rot", do_rot}, {"coeffsweep", do_coeffsweep}});
 }
